@@ -184,6 +184,10 @@ def pe(e, top=False):
         return "%s[%s]" % (pe(e["a"]), pe(e["i"], True))
     if k == "member":
         return "%s%s%s" % (pe(e["a"]), e["o"], e["m"])
+    if k == "deref":
+        return "(*%s)" % pe(e["a"])
+    if k == "addr":
+        return "(&%s)" % pe(e["a"])
     if k == "raw":
         return e["text"]
     raise ValueError("cannot print expression kind %s" % k)
